@@ -121,7 +121,9 @@ class ExecBase:
         if k == "cls":
             base = _resolve_cls(ty.base)
             t = z3.Int(name)
-            return VClass(None, t, base), [t >= self.ct.lo[base], t < self.ct.hi[base]]
+            subs = self.ct.subclasses(base)
+            return VClass(None, t, base), [z3.Or([z3.And(t == self.ct.lo[c], CLS_LO(t) == self.ct.lo[c],
+                                                         CLS_HI(t) == self.ct.hi[c]) for c in subs])]
         if k == "dict":
             return VDict(ty.key, ty.val, z3.Const(name, z3.ArraySort(sort_of(ty.key), sort_of(ty.val))),
                          z3.Const(name + "#dom", z3.ArraySort(sort_of(ty.key), z3.BoolSort()))), []
